@@ -50,7 +50,9 @@ MUTANTS = [
     ('c08-cache-returns-live-object', 'C08', 'c08', 64, 'python/experiment/model/frontends/flowir.py',
      "            return deep_copy(self._cache[reference])", "            return self._cache[reference]"),
     ('c15-variable-files-set-unfixed', 'C15', 'c15', 24, 'python/experiment/model/conf.py',
-     "variable_files = list(dict.fromkeys(variable_files or []))", "variable_files = list(set(variable_files or []))"),
+     "variable_files = list(dict.fromkeys(reversed(variable_files or [])))[::-1]", "variable_files = list(set(variable_files or []))"),
+    ('c15-duplicate-variable-file-keeps-first-position-unfixed', 'C15', 'c15', 32, 'python/experiment/model/conf.py',
+     "variable_files = list(dict.fromkeys(reversed(variable_files or [])))[::-1]", "variable_files = list(dict.fromkeys(variable_files or []))"),
     ('c05-latest-string-sort-unfixed', 'C05', 'c05', 60, 'python/experiment/model/graph.py',
      "                key=lambda c: int(c[1].split('#', 1)[0]),\n                reverse=True\n            )[0]",
      "                key=lambda c: c[1].split('#', 1)[0],\n                reverse=True\n            )[0]"),
